@@ -27,7 +27,7 @@ import calendar
 
 from .. import sym
 from ..model import AnalysisError, Program, attr_chain, norm_stmt
-from ..paths import vkey, Engine, Hooks, State, Seq
+from ..paths import vkey, Engine, Hooks, State, Seq, make_cmp
 from ..report import Result
 from ..selftest import Variant
 from ..sym import Rat
@@ -214,6 +214,11 @@ def _check_replication(prog: Program, res: Result, ma: hc.MonthAnalysis):
                       "no loop replicating the monthly arrays for months beyond 12 precedes the emission loop")
         return
     it = rep.iter
+    if isinstance(it, ast.Name):
+        # a local bound once to the range, e.g. months = range(self.start_month, self.end_month + 1)
+        ds = [a for a in ast.walk(fi.node) if isinstance(a, ast.Assign) and any(isinstance(t, ast.Name) and t.id == it.id for t in a.targets)]
+        if len(ds) == 1 and ds[0].lineno < rep.lineno:
+            it = ds[0].value
     ok_iter = (isinstance(it, ast.Call) and attr_chain(it.func) == "range" and len(it.args) == 2 and ast.unparse(it.args[0]) == "self.start_month"
                and ast.unparse(it.args[1]).replace("(", "").replace(")", "") in ("self.end_month + 1", "1 + self.end_month"))
     res.ob("R08.3", f"replication loop covers range(start_month, end_month + 1): {ast.unparse(it)}", ok_iter, prog.loc(fi, rep))
@@ -231,6 +236,15 @@ def _check_replication(prog: Program, res: Result, ma: hc.MonthAnalysis):
     eng = Engine(prog, fi, H())
     st = State()
     st.env[rv] = Rat.atom(rv)
+    # numeric constants the function binds once, wherever (num_months_in_year = 12 before the loop or inside it)
+    nstores = {}
+    for a in ast.walk(fi.node):
+        if isinstance(a, ast.Name) and isinstance(a.ctx, ast.Store):
+            nstores[a.id] = nstores.get(a.id, 0) + 1
+    for a in ast.walk(fi.node):
+        if isinstance(a, ast.Assign) and len(a.targets) == 1 and isinstance(a.targets[0], ast.Name) and nstores.get(a.targets[0].id) == 1 \
+                and isinstance(a.value, ast.Constant) and isinstance(a.value.value, (int, float)) and not isinstance(a.value.value, bool):
+            st.env[a.targets[0].id] = eng.eval(a.value, st)
     finals = eng.run_block(rep.body, [st])
     I = Rat.atom(rv)
     checked = 0
@@ -259,6 +273,12 @@ def _check_replication(prog: Program, res: Result, ma: hc.MonthAnalysis):
         for e in evs:
             tgt, src_ast, src_val = e.data
             got[tgt] = (src_ast, src_val, e.node)
+        # no branch on the wrap, but a conditional VALUE (i % 12 or 12): decided once per case of the remainder
+        subcases = None
+        if want is None:
+            f0, f1 = f.fork(), f.fork()
+            if f0.assume(make_cmp(modv, "==", Rat.const(0)), True) and f1.assume(make_cmp(modv, "!=", Rat.const(0)), True):
+                subcases = [(f0, Rat.const(12)), (f1, modv)]
         missing = sorted(read - set(got))
         res.ob("R08.3", f"[{case}] every monthly array read by the emission loop is replicated ({len(read)} arrays)", not missing, prog.loc(fi, rep))
         for m in missing:
@@ -275,6 +295,8 @@ def _check_replication(prog: Program, res: Result, ma: hc.MonthAnalysis):
                 # no branch on the wrap: only the closed form (i - 1) % 12 + 1 is right for i = 24, 36, ...
                 idx = eng.eval(src_ast.slice, f)
                 idx_ok = isinstance(idx, Rat) and idx.equals(sym.call("mod", [I - Rat.const(1), Rat.const(12)]) + Rat.const(1))
+                if not idx_ok and isinstance(idx, Rat) and subcases:
+                    idx_ok = all(hc.resolve_ite(idx, fs).equals(w_) for fs, w_ in subcases)
             res.ob("R08.3", f"[{case}] {tgt.split('.')[-1]} extended from its own entry {want.key() if want is not None else '?'}", okm and idx_ok, prog.loc(fi, node))
             if not okm:
                 res.violation("R08.3", f"wrong-source:{tgt}", prog.loc(fi, node), fi.qualname,
